@@ -143,6 +143,25 @@ def run(F, rep):
             rep.check(good is not None, 'C12.H1', key, entry.where(),
                       '%s::%s is written during %s but is not unconditionally re-initialised before its first use in that call: the result depends on what the same object processed before' % (rec_s.split('::')[-1], fld, entry.short), good)
 
+    rep.rule('C12.H2', 'the analyser\'s per-instance units cache (exempt from H1 as model independent) is only filled under isStandardUnitName(key) with a freshly created Units of that name')
+    n_c = 0
+    for f in F.funcs.values():
+        if not f.file.endswith('analyser.cpp'):
+            continue
+        for n in f.walk():
+            if n.get('k') == 'Call' and n.get('mc') and n.get('fn') in ('emplace', 'insert', 'operator[]', 'try_emplace', 'insert_or_assign') and receiver(n) is not None and receiver(n).get('n') == 'mStandardUnits':
+                n_c += 1
+                karg = nth_arg(n, 0)
+                varg = nth_arg(n, 1)
+                rc = ff(f).rendered_conds_at(n) or set()
+                okk = ('isStandardUnitName(%s)' % render(karg), True) in rc
+                okv = varg is not None and fresh(f, varg)
+                rep.check(okk and okv, 'C12.H2', '%s|mStandardUnits.%s(%s)' % (f.short, n['fn'], render(karg)), f.where(n),
+                          'the cache that survives between analyses is filled with `%s` -> `%s` %s: units of one analysed model leak into the analysis of the next model that uses the same name' % (
+                              render(karg), render(varg), '' if okk else 'outside isStandardUnitName(%s)' % render(karg)), 'standard-unit name and fresh Units object')
+    if n_c < 1:
+        raise AnalysisBroken('no write to AnalyserImpl::mStandardUnits found')
+
     # ------------------------------------------------------------------ M
     rep.rule('C12.M1', 'Printer::printModel, Validator::validateModel, Analyser::analyseModel and Generator::*Code call state-changing entity methods only on objects created inside the service (create()/clone())')
     meth = {}
